@@ -67,14 +67,38 @@ impl HeapHandle {
     #[verifier::external_body]
     pub fn remove(&self, node: NodeRef) requires node.height_in_recompute_heap >= 0 { unimplemented!() }
 }
-pub struct State { pub num_nodes_became_unnecessary: CounterCell, pub recompute_heap: HeapHandle }
+#[verifier::external_body]
+pub struct StackGuard { _p: u8 }
+impl StackGuard {
+    #[verifier::external_body]
+    pub fn push(&mut self, w: WeakNode) { unimplemented!() }
+}
+#[verifier::external_body]
+pub struct InvalidityStack { _p: u8 }
+impl InvalidityStack {
+    #[verifier::external_body]
+    pub fn borrow_mut(&self) -> StackGuard { unimplemented!() }
+}
+pub struct State { pub num_nodes_became_unnecessary: CounterCell, pub recompute_heap: HeapHandle, pub propagate_invalidity: InvalidityStack }
 impl State {
     #[verifier::external_body]
     pub fn set_height(&self, node: NodeRef, height: i32) { unimplemented!() }
 }
+/// permission predicate: which expert payload may have which edge callback run now (call-site obligation)
+pub uninterp spec fn may_run_edge_callback(e: &ExpertLatch, child_index: int) -> bool;
 impl ExpertLatch {
     #[verifier::external_body]
     pub fn observability_change(&self, is_now_observable: bool) { unimplemented!() }
+    /// ExpertNode::run_edge_callback (unit `expert`); here: on whom and for which edge it is invoked
+    #[verifier::external_body]
+    pub fn run_edge_callback(&self, child_index: i32)
+        requires may_run_edge_callback(self, child_index as int),
+    { unimplemented!() }
+    #[verifier::external_body]
+    pub fn run_edge_callback__reached(&self, child_index: i32)
+        requires may_run_edge_callback(self, child_index as int),
+        ensures false,
+    { unimplemented!() }
 }
 
 //@extract enum Kind
@@ -120,6 +144,15 @@ impl Node {
     fn is_stale_with_respect_to_a_child(&self) -> (r: bool) ensures r == stale_wrt_a_child(self) { unimplemented!() }
     #[verifier::external_body]
     fn maybe_handle_after_stabilisation(&self, state: &State) { unimplemented!() }
+    #[verifier::external_body]
+    fn add_parent(&self, child_index: i32, parent_ref: &Node) { unimplemented!() }
+    #[verifier::external_body]
+    fn became_necessary(&self, state: &State) { unimplemented!() }
+    #[verifier::external_body]
+    fn weak(&self) -> WeakNode { unimplemented!() }
+    spec fn expert_payload(&self) -> Option<&ExpertLatch> {
+        if self.is_valid { match &self._kind { Kind::Expert(e) => Some(e), _ => None } } else { None }
+    }
     #[verifier::external_body]
     fn remove_children(&self, state: &State) { unimplemented!() }
     #[verifier::external_body]
@@ -253,6 +286,36 @@ impl Node {
 //@ contract:
 //@|     requires !self.necessary(), self.height_in_recompute_heap >= 0,
 //@|     ensures false, // [a-node-that-becomes-unnecessary-while-queued-always-leaves-the-recompute-heap]
+//@end
+
+//@extract fn Node::add_parent_without_adjusting_heights
+//@ file: src/node.rs
+//@ impl: impl ErasedNode for Node
+//@ name: add_parent_without_adjusting_heights
+//@ as: fn add_parent_without_adjusting_heights(&self, child_index: i32, parent_ref: &Node, state: &State)
+//@ props: C14
+//@ contract:
+//@|     requires
+//@|         parent_ref.necessary(),
+//@|         // an edge callback may only be run on the *parent's* expert payload, for the edge just linked:
+//@|         forall|e: &ExpertLatch, i: int| may_run_edge_callback(e, i) <==> (parent_ref.expert_payload() == Some(e) && i == child_index),
+//@|     // [linking-runs-only-the-new-parents-callback-for-this-edge]
+//@end
+
+//@extract fn Node::add_parent_without_adjusting_heights!must
+//@ file: src/node.rs
+//@ impl: impl ErasedNode for Node
+//@ name: add_parent_without_adjusting_heights
+//@ as: fn add_parent_without_adjusting_heights__expert_parent_hears_of_the_new_edge(&self, child_index: i32, parent_ref: &Node, state: &State)
+//@ panics: diverge
+//@ rule R8: `expert.run_edge_callback(child_index)` => `expert.run_edge_callback__reached(child_index)` x*
+//@ props: C14
+//@ contract:
+//@|     requires
+//@|         parent_ref.necessary(),
+//@|         parent_ref.expert_payload() is Some,           // the new parent is a (valid) expert node
+//@|         forall|e: &ExpertLatch, i: int| may_run_edge_callback(e, i) <==> (parent_ref.expert_payload() == Some(e) && i == child_index),
+//@|     ensures false, // [linking-a-child-under-an-expert-node-always-runs-that-edges-callback-on-the-parent]
 //@end
 
 //@extract fn Node::check_if_unnecessary
